@@ -20,7 +20,9 @@ EXPLANATION = (
     "non-finite float is a NAME, not a literal). C04-R3: f-string structure from the skeletons of "
     "unparse_FormattedValue/_unparse_JoinedStr (escape then brace doubling; a field is "
     "`{` [space] value [!conv] [:spec] `}` and nothing else). C04-R4: quote discipline for literals "
-    "nested in replacement fields."
+    "nested in replacement fields (strings flip the quote, everything else inherits it, a format "
+    "spec is rendered in line under the enclosing quote); C03-R7: every child reaches the text "
+    "through the driver's precedence comparison."
 )
 ASSUMPTIONS = ["contracts of ascii()/repr() as documented", "nothing is claimed about ast.unparse (stdlib)"]
 
